@@ -95,6 +95,9 @@ class Recorder:
         self.deep = False           # log deep digests of the system and of mutable arguments around analyses
         self._orig = {}
         self.installed = False
+        import project as _pj
+        if self in _pj.QUIET:
+            _pj.QUIET.remove(self)
 
     # -- trace bookkeeping -----------------------------------------------------------------
     def _new_trace(self, s, first_event, origin=""):
@@ -150,6 +153,9 @@ class Recorder:
         if self.installed:
             return
         rec = self
+        import project as _pj
+        if self not in _pj.QUIET:
+            _pj.QUIET.append(self)
 
         def wrap_init(orig):
             @functools.wraps(orig)
